@@ -696,7 +696,7 @@ class Mask2D(Mask):
         """
         return cls(
             mask=cls.flip_hdu_for_ds9(primary_hdu.data.astype("float")),
-            pixel_scales=primary_hdu.header["PIXSCALE"],
+            pixel_scales=cls.pixel_scales_from_header(primary_hdu.header),
             origin=origin,
         )
 
